@@ -26,6 +26,36 @@ def put(s, tag, rows):
     a, b = "<!-- %s-BEGIN -->" % tag, "<!-- %s-END -->" % tag
     i, j = s.index(a), s.index(b)
     return s[:i] + a + "\n" + "\n".join(rows) + "\n" + s[j:]
+import sys
+sys.path.insert(0, os.path.dirname(os.path.abspath(__file__)))
+import props_config as P
+TIES = {
+ 'C01': 'model of resolve.go (four caches) vs cache-free reference semantics; histories on generated virtual trees',
+ 'C02': 'same harness; candidate-order theorems for any loader state; candidate literals regenerated',
+ 'C03': 'controlled scheduler on the real loop (yield points), trace acceptor + Queue system + coupled system',
+ 'C04': 'same scenarios; Queue system (FIFO, batches, wake-ups) + progress theorems',
+ 'C05': 'same scenarios; Ledger system (per-job state) + progress; msToDuration regenerated',
+ 'C06': 'same scenarios; Ledger (count exact) + coupled system (Run returns exactly at quiescence) + progress',
+ 'C07': 'same scenarios; Queue (Stop handshake) + bounded-steps theorems',
+ 'C08': 'same scenarios; Ledger + registry/goroutine matching + coupled system (drain)',
+ 'C09': 'panic-site inventory regenerated + hostile-argument sessions on every installed function',
+ 'C10': 'guards/range checks/sign extension regenerated as BitVec 64 kernels; model/spec/implementation on generated calls',
+ 'C11': 'codec model vs real Buffer and Go helpers',
+ 'C12': 'escape tables regenerated; code-shaped model, list-level spec and implementation on histories',
+ 'C13': 'state machine of url.go + transcription of net/url, idna; histories with all getters; reparse theorem',
+ 'C14': 'RFC 3986 spec + code model + implementation on (reference, base) pairs',
+ 'C15': 'same require harness; lookup-order theorems; node: prefix regenerated',
+ 'C16': 'JSON wrapper model; .json files with hostile text, named and reached in eight ways',
+ 'C17': 'access tables regenerated; lockset theorems; race-detector stress',
+ 'C18': 'partial-order oracle + exact model; JS programs (incl. blocking callbacks) run on the real loop',
+ 'C19': 'single-pass formatter refined to tokenise+render; sink table regenerated; throwing conversions',
+ 'C20': 'env snapshot model with host changes and late runtimes; hostile environments',
+}
+props = ["| id | theorems | harness | tie |", "|---|---|---|---|"]
+for k in sorted(P.PROPS):
+    c = P.PROPS[k]
+    props.append("| %s | %d | `%s` | %s |" % (k, len(c["theorems"]), c["harness"], TIES[k]))
+s = put(s, "PROPS", props)
 s = put(s, "FINDINGS", finds)
 s = put(s, "SEEDS", seeds)
 s = re.sub(r"All \d+ are detected\.", "All %d are detected." % n, s)
